@@ -1,3 +1,4 @@
+import re
 """Type-directed generator of well-typed, fully annotated Garble programs (C01, C02, C14...).
 Every literal carries its type suffix; sub-expressions are reused on purpose (the same
 failing operation occurs twice); statements mutate variables through nested accessors,
@@ -13,7 +14,7 @@ def is_signed(t): return t.startswith("i")
 
 def paren(s):
     s2 = s.lstrip()
-    if s2.startswith("{") or s2.startswith("if ") or s2.startswith("match "):
+    if s2.startswith("{") or s2.startswith("if ") or s2.startswith("match ") or re.match(r"[A-Z]\w* \{", s2):
         return "(" + s + ")"
     return s
 
@@ -42,6 +43,8 @@ class Gen:
     # ------------------------------------------------------------- types
     def fresh(self, p="v"):
         self.counter += 1
+        if p in ("v", "m", "u", "x"):
+            p = "a"             # locals share the namespace of the parameters: a0, a1, a2 ...
         return "%s%d" % (p, self.counter)
 
     def int_type(self):
@@ -69,7 +72,10 @@ class Gen:
         r = self.rng
         for i in range(r.randint(0, 2)):
             name = "S%d" % i
-            fields = sorted((("f%d" % k), self.small_type(1)) for k in range(r.randint(1, 3)))
+            if r.random() < 0.5:
+                fields = sorted((("f%d" % k), r.choice(["bool", "u8", "i8", "u16"])) for k in range(r.randint(2, 4)))
+            else:
+                fields = sorted((("f%d" % k), self.small_type(1)) for k in range(r.randint(1, 3)))
             self.structs[name] = fields
         for i in range(r.randint(0, 2)):
             name = "E%d" % i
@@ -114,6 +120,12 @@ class Gen:
         x = r.random()
         if vs and x < 0.18:
             return r.choice(vs)
+        if self.fns and r.random() < 0.15:
+            cands = [f for f in self.fns if f[2] == t]
+            if cands:
+                f = r.choice(cands)
+                # arguments are mostly plain variables: argument order vs parameter names matters
+                return "%s(%s)" % (f[0], ", ".join(self.expr(pt, env, 0 if r.random() < 0.7 else d - 1) for _, pt in f[1]))
         if t == "bool":
             return self.bool_expr(env, d)
         if is_int(t):
@@ -241,7 +253,11 @@ class Gen:
     def match_expr(self, t, env, d):
         """match on a bool / small integer / enum / tuple scrutinee, exhaustive by construction"""
         r = self.rng
-        kind = r.choice(["bool", "int", "enum", "tuple"] if self.enums else ["bool", "int", "tuple"])
+        kinds = ["bool", "int", "tuple"] + (["enum"] if self.enums else [])
+        sp = [n for n, fs in self.structs.items() if sum(1 for _, t in fs if t == "bool" or is_int(t)) >= 2]
+        if sp:
+            kinds += ["struct", "struct"]
+        kind = r.choice(kinds)
         if kind == "bool":
             s = self.expr("bool", env, d - 1)
             arms = [("true", []), ("false", [])]
@@ -271,6 +287,30 @@ class Gen:
                     arms.append(("%s::%s(%s)" % (en, vn, ", ".join(b[0] for b in bs)), bs))
             if wildcard:
                 arms.append(("_", []))
+        elif kind == "struct":
+            sn = r.choice(sp)
+            s = self.expr(("struct", sn), env, d - 1)
+            prim = [(f, t) for f, t in self.structs[sn] if t == "bool" or is_int(t)]
+            others = [(f, t) for f, t in self.structs[sn] if not (t == "bool" or is_int(t))]
+
+            def refut(t):
+                if t == "bool":
+                    return r.choice(["true", "false"])
+                return r.choice(["0%s" % t, "1%s..10%s" % (t, t), "3%s" % t])
+            arms = []
+            for _ in range(r.randint(1, 3)):
+                fs = [(f, refut(t)) for f, t in prim]
+                r.shuffle(fs)
+                bs = []
+                if others and r.random() < 0.5:
+                    pats = ["%s: %s" % fp for fp in fs]
+                    for f, ft in others:
+                        bname = self.fresh("b")
+                        pats.append("%s: %s" % (f, bname)); bs.append((bname, ft, False))
+                    arms.append(("%s { %s }" % (sn, ", ".join(pats)), bs))
+                else:
+                    arms.append(("%s { %s%s }" % (sn, ", ".join("%s: %s" % fp for fp in fs), ", .." if others else ""), []))
+            arms.append(("_", []))
         else:
             st = ("tup", ["bool", r.choice(["u8", "i8"])])
             s = self.expr(st, env, d - 1)
@@ -330,11 +370,37 @@ class Gen:
             if self.style == "mutation":
                 # fewer plain lets, more let mut / assignments / control flow
                 x = x * 0.9 + 0.1 if x > 0.1 else x * 2.5 if x < 0.04 else 0.3 + x
+            if self.fns and r.random() < 0.12:
+                # a call whose arguments are other values than the caller's variables of the parameters' names;
+                # the caller's variables are read again afterwards (tail expression)
+                f = r.choice(self.fns)
+                args = []
+                for pn, pt in f[1]:
+                    others = [n for (n, vt, _) in env if vt == pt and n != pn]
+                    args.append(r.choice(others) if others and r.random() < 0.6 else self.expr(pt, env, 1))
+                name = self.fresh()
+                out.append("let %s: %s = %s(%s);" % (name, tstr(f[2]), f[0], ", ".join(args)))
+                env.append((name, f[2], False))
+                continue
             if x < 0.25:
                 t = self.small_type()
                 name = self.fresh()
                 out.append("let %s: %s = %s;" % (name, tstr(t), self.rhs(t, env, d)))
                 env.append((name, t, False))
+            elif x < 0.31:
+                # destructuring let of a tuple / struct variable or expression
+                cands = [(n, t) for (n, t, _) in env if isinstance(t, tuple) and t[0] in ("tup", "struct")]
+                if cands:
+                    n, t = r.choice(cands)
+                    if t[0] == "tup":
+                        names = [self.fresh() for _ in t[1]]
+                        out.append("let (%s) = %s;" % (", ".join(names) + ("," if len(names) == 1 else ""), n))
+                        env += [(nm, ft, False) for nm, ft in zip(names, t[1])]
+                    else:
+                        fs = self.structs[t[1]]
+                        names = [self.fresh() for _ in fs]
+                        out.append("let %s { %s } = %s;" % (t[1], ", ".join("%s: %s" % (f, nm) for (f, _), nm in zip(fs, names)), n))
+                        env += [(nm, ft, False) for nm, (_, ft) in zip(names, fs)]
             elif x < 0.5:
                 t = self.small_type()
                 name = self.fresh("m")
@@ -386,7 +452,11 @@ class Gen:
         r = self.rng
         self.make_defs()
         for i in range(r.randint(0, 2)):
-            ps = [(self.fresh("a"), self.small_type(1)) for _ in range(r.randint(1, 3))]
+            # names are reused across functions on purpose (counters restart): a callee's parameters and
+            # locals collide with the caller's variables
+            self.counter = 0
+            ps = [("a%d" % k, self.small_type(1)) for k in range(r.randint(1, 3))]
+            self.counter = len(ps)
             ret = self.small_type(1)
             env = [(n, t, False) for n, t in ps]
             muts = r.random() < 0.5
@@ -398,9 +468,11 @@ class Gen:
                 self.expr(ret, env2, self.max_depth - 1))
             self.fns.append(("h%d" % i, ps, ret, txt))
         nparams = r.randint(1, 3)
-        ps = [(self.fresh("x"), self.small_type(0 if r.random() < 0.5 else 1)) for _ in range(nparams)]
+        self.counter = 0
+        ps = [("a%d" % k, self.small_type(0 if r.random() < 0.5 else 1)) for k in range(nparams)]
         if len(ps) == 1 and isinstance(ps[0][1], tuple) and ps[0][1][0] == "arr" and r.random() < 0.5:
-            ps.append((self.fresh("x"), "u8"))
+            ps.append(("a1", "u8"))
+        self.counter = len(ps)
         ret = self.small_type()
         env = [(n, t, False) for n, t in ps]
         body, env2 = self.stmts(env, r.randint(1, 4), self.max_depth)
